@@ -249,6 +249,7 @@ package cgroup
 //@ func pkg/cgroup.(*V1).New props C20
 //@   arith int
 //@   requires c != nil
+//@   ensures err == nil ==> cg != nil
 //@   assume os.ErrExist != nil
 //@   assigns G.made, G.rmdir
 //@   callsite return: assert @C20 err == nil ==> forall k int :: 0 <= k && k < len(v1.all) ==> v1.all[k] != nil && G.made[v1.all[k].path]
@@ -377,3 +378,24 @@ package cgroup
 //@   arith int
 //@   requires ct != nil
 //@   ensures result.1 == nil ==> result.0 != nil && ref_as(result.0, V1) != nil && ref_as(result.0, V1).existing
+
+// Nest (v2): the nested group is marked existing exactly when its mkdir said so, and the pids moved into it
+// are the ones just listed from the parent's own cgroup.procs - nothing else is written to it
+//@ func pkg/cgroup.(*V2).Nest props C20
+//@   arith int
+//@   requires c != nil
+//@   assigns G.made, FC.closed
+//@   ensures result.1 == nil ==> ref_as(result.0, V2) != nil && fresh(ref_as(result.0, V2))
+//@   ensures result.1 == nil && !ref_as(result.0, V2).existing ==> G.made[ref_as(result.0, V2).path]
+//@   callsite (*V2).Processes: assert @C20 c == caller_c
+//@   callsite (*V2).AddProc: assert @C20 c == v2 && pids == p
+//@ func iface:pkg/cgroup.Cgroup.AddProc
+//@   assumed "interface method; both implementations are under contract (V1.AddProc, V2.AddProc)"
+//@   params c pid
+//@   assigns FC.closed
+//@ func pkg/cgroup.(*V1).Nest props C20
+//@   arith int
+//@   requires c != nil && forall k int :: 0 <= k && k < len(c.all) ==> c.all[k] != nil
+//@   assigns G.made, G.rmdir, FC.closed
+//@   callsite (*V1).Processes: assert @C20 c == caller_c
+//@   callsite Cgroup.AddProc: assert @C20 c == v1 && pid == p
